@@ -191,3 +191,10 @@ SPECS["C12"] = {
     "assumptions": ["contract: chrono::NaiveTime::from_hms_micro_opt(h, m, s, us) is Some iff h < 24, m < 60, s < 60, us < 2 000 000 (chrono documentation: microseconds above 999 999 encode a leap second)",
                     "contracts: u32::pow(10, e) as a table for e <= 9, Option::unwrap_or, OptionExt::context"],
 }
+
+SPECS["C31"] = {
+    "parts": [{"engine": "m", "module": "c31"}],
+    "bounds": "2-3 (thorough 1-4) elements with symbolic tags in group 0000 or 0008 that may coincide, value lengths symbolic up to 64 KiB",
+    "outside": "that PrimitiveValue::calculate_byte_len equals the number of bytes the encoder writes for each VR (value encoding is not part of this check); more than 4 elements; the real BTreeMap (a finite map with symbolic keys stands for it)",
+    "assumptions": ["elements are abstract: (tag, length reported by HasLength::length); contracts: BTreeMap collect/insert as a finite map keyed by tag, DataElement::{tag,value,new}, Length::is_defined"],
+}
